@@ -19,6 +19,7 @@ import (
 	"net/netip"
 	"os"
 	"strings"
+	"sync"
 	"testing"
 	"testing/synctest"
 	"time"
@@ -38,6 +39,7 @@ type readScenario struct {
 	Seed     bool     `json:"seed"`    // an honest seed is connected
 	Corrupt  bool     `json:"corrupt"` // a second peer that answers with corrupt data
 	Huge     bool     `json:"huge,omitempty"` // the 4 GiB + 3 MiB + 5 torrent; only its last six pieces exist (prefilled)
+	Absent   int      `json:"absent,omitempty"` // huge only: this many trailing pieces are not stored, the seed has to supply them
 	Ops      []string `json:"ops"`
 }
 
@@ -85,13 +87,38 @@ func hugeSetup() []byte {
 	return hugeInfo
 }
 
+// hugeSeedScenarios: windows at the end of the huge torrent, whose trailing pieces the seed supplies.
+func hugeSeedScenarios() []readScenario {
+	const G4 = int64(4) << 30
+	HP := int64(ghuge.PSize)
+	HL := ghuge.Length
+	var l []readScenario
+	for _, absent := range []int{1, 2} {
+		for _, win := range [][2]int64{{HL - 5, 5}, {HL - 1, 1}, {HL - HP - 5, HP + 5}, {HL - HP - 100, 200}, {G4 + 2*HP - 10, HL - (G4 + 2*HP - 10)}} {
+			for _, ops := range [][]string{{"read:-1", "read:1"}, {"read:100", "read:40000", "read:1"}, {"seek:-1:2", "read:1", "read:1"}, {"seek:-6:2", "read:16384", "read:1"}} {
+				l = append(l, readScenario{Off: win[0], Len: win[1], Seed: true, Huge: true, Absent: absent, Ops: ops})
+			}
+		}
+	}
+	return l
+}
+
 func (s readScenario) String() string {
+	if s.Huge {
+		return fmt.Sprintf("huge torrent (4 GiB + 3 MiB + 5, 1 MiB pieces, last %d pieces not stored) window=(%d,%d) seed=%v ops=%v", s.Absent, s.Off, s.Len, s.Seed, s.Ops)
+	}
 	return fmt.Sprintf("window=(%d,%d) prefill=%v seed=%v corrupt=%v ops=%v", s.Off, s.Len, s.Prefill, s.Seed, s.Corrupt, s.Ops)
 }
 
 // seedLoop plays a remote peer: have-all, unchoke when asked, every request
 // answered at once (true or corrupt data).
 func seedLoop(conn net.Conn, truth []byte, psize uint32, corrupt bool) {
+	seedLoopF(conn, func(off int64, n int) []byte { return truth[off : off+int64(n)] }, int64(len(truth)), psize, corrupt, nil)
+}
+
+// seedLoopF: the content is a function of the offset (torrents that are never
+// materialised); onReq sees every Request storrent sends.
+func seedLoopF(conn net.Conn, truthAt func(off int64, n int) []byte, total int64, psize uint32, corrupt bool, onReq func(m rc.Msg)) {
 	send := func(m rc.Msg) error {
 		_, err := conn.Write(rc.Encode(m, rc.EncodeOpts{OmitZero: true}))
 		return err
@@ -116,12 +143,15 @@ func seedLoop(conn net.Conn, truth []byte, psize uint32, corrupt bool) {
 			continue
 		}
 		if m.Kind == rc.Request {
+			if onReq != nil {
+				onReq(m)
+			}
 			off := int64(m.Index)*int64(psize) + int64(m.Begin)
 			end := off + int64(m.Length)
-			if off < 0 || end > int64(len(truth)) {
+			if off < 0 || end > total || m.Length > 1<<17 {
 				continue
 			}
-			d := append([]byte{}, truth[off:end]...)
+			d := append([]byte{}, truthAt(off, int(m.Length))...)
 			if corrupt {
 				d[0] ^= 0xFF
 			}
@@ -132,6 +162,19 @@ func seedLoop(conn net.Conn, truth []byte, psize uint32, corrupt bool) {
 }
 
 func runRead(t *testing.T, sc readScenario) (probs []problem, outcome string) {
+	var reqMu sync.Mutex
+	var reqProbs []problem
+	defer func() {
+		reqMu.Lock()
+		seen := map[string]bool{}
+		for _, p := range reqProbs {
+			if !seen[p.Key] {
+				seen[p.Key] = true
+				probs = append(probs, p)
+			}
+		}
+		reqMu.Unlock()
+	}()
 	prob := func(key, format string, a ...any) {
 		for _, p := range probs {
 			if p.Key == key {
@@ -190,7 +233,7 @@ func runRead(t *testing.T, sc readScenario) (probs []problem, outcome string) {
 		}
 		w.t = tor
 		if sc.Huge {
-			for i := uint32(hugeFirst); i < uint32(g.npieces()); i++ {
+			for i := uint32(hugeFirst); i < uint32(g.npieces()-sc.Absent); i++ {
 				tor.Pieces.AddData(i, 0, append([]byte{}, hugePieces[i]...), ^uint32(0))
 				if done, _, err := tor.Pieces.Finalise(i, tor.PieceHashes[i]); !done || err != nil {
 					panic(fmt.Sprintf("huge piece %d: %v %v", i, done, err))
@@ -208,7 +251,26 @@ func runRead(t *testing.T, sc readScenario) (probs []problem, outcome string) {
 			pid := hash.Hash([]byte(fmt.Sprintf("-RM0001-seed%08d", i)))
 			tor.NewPeer("", a, netip.AddrPortFrom(netip.AddrFrom4([4]byte{16, 0, 0, byte(i + 1)}), uint16(9000+i)), false,
 				protocol.HandshakeResult{Hash: tor.Hash, Id: pid, Fast: true, Extended: false}, nil)
-			go seedLoop(b, w.truth, g.PSize, corrupt)
+			if sc.Huge {
+				go seedLoopF(b, hugeTruth, g.Length, g.PSize, corrupt, func(m rc.Msg) {
+					// C11: a request names a block of the piece: aligned, inside it, a full block or the piece's short tail
+					pl := uint32(0)
+					if int(m.Index) < g.npieces() {
+						pl = g.pieceLen(m.Index)
+					}
+					want := uint32(wchunk)
+					if m.Begin < pl && pl-m.Begin < want {
+						want = pl - m.Begin
+					}
+					if int(m.Index) >= g.npieces() || m.Begin%wchunk != 0 || m.Begin >= pl || m.Length != want {
+						reqMu.Lock()
+						reqProbs = append(reqProbs, problem{"C11", "C11/request-not-a-block-of-the-piece", fmt.Sprintf("Request{%d,%d,%d}: piece %d of the torrent has %d bytes (torrent of %d bytes, piece length %d); the block at that offset has %d bytes  [%s]", m.Index, m.Begin, m.Length, m.Index, pl, g.Length, g.PSize, want, sc)})
+						reqMu.Unlock()
+					}
+				})
+			} else {
+				go seedLoop(b, w.truth, g.PSize, corrupt)
+			}
 		}
 		if sc.Corrupt {
 			connect(1, true)
@@ -419,7 +481,7 @@ func TestVerifC02(t *testing.T) {
 		res.Add("traces_validated_against_impl", 1)
 		res.Distinct("outcomes", out)
 		for _, p := range probs {
-			if res.HasViolation(p.Key) {
+			if res.HasViolation(p.Key) || p.Prop != "C02" {
 				continue
 			}
 			hits := 0
@@ -514,6 +576,14 @@ func TestVerifC02(t *testing.T) {
 				}
 			}
 		}
+	}
+	// (a'') beyond 4 GiB with an honest seed: the last one or two pieces (a full one and the
+	// 5-byte tail) are not stored and have to be fetched
+	for _, sc := range hugeSeedScenarios() {
+		if !mine() {
+			continue
+		}
+		judge(sc)
 	}
 	// (b) liveness and histories: an honest seed, evictions / cancel / kill between operations
 	env := []string{"read:100", "read:40000", "seek:32768:0", "seek:0:0", "evict", "cancel", "kill", "adv:60"}
